@@ -16,6 +16,7 @@ CONSTANTS
   ExportOn = TRUE
   MaxOps = 4
   SampleMod = 8
+  ImportantMod = 1
 INIT MInit
 NEXT MNext
 VIEW view
